@@ -194,7 +194,14 @@ class Ctx:
 
         nproc = nproc or int(os.environ.get("VERIF_NPROC", "0")) or min(14, os.cpu_count() or 1)
         if nproc <= 1 or len(items) <= 1:
-            return [fn(self, it) for it in items]
+            out = []
+            for it in items:
+                r, stop = _guarded_call(self, fn, it, reraise_internal=True)
+                out.append(r)
+                if stop:
+                    out += [None] * (len(items) - len(out))
+                    break
+            return out
         chunks = [items[i::nproc] for i in range(nproc)]
         chunks = [c for c in chunks if c]
         fctx = mp.get_context("fork")
@@ -220,27 +227,80 @@ def raised_in_code_under_test(e: BaseException) -> bool:
     return any(os.path.realpath(f.filename).startswith(root) for f in frames)
 
 
+class CaseTimeout(BaseException):
+    """raised by the per-case watchdog (BaseException: `except Exception` in the code under test must not swallow it)"""
+
+
+CASE_CPU_LIMIT = float(os.environ.get("VERIF_CASE_CPU_LIMIT", "60"))    # CPU seconds of this process for ONE case
+CASE_WALL_LIMIT = float(os.environ.get("VERIF_CASE_WALL_LIMIT", "1500"))  # wall-clock seconds for ONE case
+
+
+def _guarded_call(sub: "Ctx", fn, it, reraise_internal=False):
+    """fn(sub, it) under a watchdog.  A case normally takes milliseconds to seconds; one that burns CASE_CPU_LIMIT CPU
+    seconds (a loop in the code under test that never reaches a switch point of the virtual scheduler, e.g. a sequential
+    node spinning in next()) or CASE_WALL_LIMIT wall seconds is reported as a failing input: next() never returned.
+    Returns (result, stop): stop = the process state can no longer be trusted, skip the rest of this worker's chunk."""
+    import signal
+    import traceback
+
+    def on_alarm(signum, frame):
+        stack = "".join(traceback.format_stack(frame)[-8:])
+        raise CaseTimeout(("CPU" if signum == signal.SIGPROF else "wall clock") + " limit; innermost frames:\n" + stack)
+
+    can = hasattr(signal, "setitimer") and __import__("threading").current_thread() is __import__("threading").main_thread()
+    if can:
+        old1 = signal.signal(signal.SIGPROF, on_alarm)
+        old2 = signal.signal(signal.SIGALRM, on_alarm)
+        signal.setitimer(signal.ITIMER_PROF, CASE_CPU_LIMIT)
+        signal.setitimer(signal.ITIMER_REAL, CASE_WALL_LIMIT)
+    try:
+        try:
+            return fn(sub, it), False
+        finally:
+            if can:
+                signal.setitimer(signal.ITIMER_PROF, 0)
+                signal.setitimer(signal.ITIMER_REAL, 0)
+                signal.signal(signal.SIGPROF, old1)
+                signal.signal(signal.SIGALRM, old2)
+    except CaseTimeout as e:
+        inp = it if isinstance(it, dict) else {"case": it}
+        try:
+            json.dumps(inp, default=repr)
+        except Exception:
+            inp = {"case": repr(it)[:3000]}
+        sub.fail("case_never_returned", inp,
+                 f"the case did not finish within {CASE_CPU_LIMIT:.0f} CPU s / {CASE_WALL_LIMIT:.0f} wall s (cases take milliseconds to seconds): a call into the code under test never returned. " + str(e)[-1200:])
+        return None, True
+    except Exception as e:
+        tb = traceback.format_exc()
+        if raised_in_code_under_test(e):
+            # the harness did not expect the API to raise here: its picture of the code no longer holds
+            try:
+                json.dumps(it, default=repr)
+                inp = {"case": it}
+            except Exception:
+                inp = {"case": repr(it)[:2000]}
+            sub.diverge("uncaught_exception", inp, "the code under test raised where the harness expects no exception: " + tb[-900:])
+        elif reraise_internal:
+            raise
+        else:  # machinery error inside a case: surface it as a note, not a verdict
+            sub.note("internal error in case: " + tb[-600:])
+            sub.hist["internal_errors"] = sub.hist.get("internal_errors", 0) + 1
+        return None, False
+
+
 def _pmap_worker(args):
     fn, prop, tier, seed, escalated, chunk = args
     sub = Ctx(prop, tier, seed)
     sub.escalated = escalated
     out = []
     for it in chunk:
-        try:
-            out.append(fn(sub, it))
-        except Exception as e:
-            import traceback
-            tb = traceback.format_exc()
-            if raised_in_code_under_test(e):
-                # the harness did not expect the API to raise here: its picture of the code no longer holds
-                try:
-                    sub.diverge("uncaught_exception", {"case": it}, "the code under test raised where the harness expects no exception: " + tb[-900:])
-                except Exception:
-                    sub.diverge("uncaught_exception", {"case": repr(it)[:2000]}, "the code under test raised where the harness expects no exception: " + tb[-900:])
-            else:  # machinery error inside a case: surface it as a note, not a verdict
-                sub.note("internal error in case: " + tb[-600:])
-                sub.hist["internal_errors"] = sub.hist.get("internal_errors", 0) + 1
-            out.append(None)
+        r, stop = _guarded_call(sub, fn, it)
+        out.append(r)
+        if stop:
+            sub.hist["cases_skipped_after_hang"] = sub.hist.get("cases_skipped_after_hang", 0) + len(chunk) - len(out)
+            out += [None] * (len(chunk) - len(out))
+            break
     return sub.export(), out
 
 
